@@ -80,6 +80,7 @@ let () =
                     | "INV" -> InvalidateAll (nn ())
                     | "INVC" -> InvalidateCache (nn ())
                     | "UPD" -> Upd (match nx () with 0 -> WQ | 1 -> WU | 2 -> WZ | 3 -> WY | 4 -> WT | 5 -> WUW | 6 -> WZW | 7 -> WQEW | _ -> WUEW)
+                    | "UPDS" -> let w = (match nx () with 0 -> WQ | 1 -> WU | 2 -> WZ | 3 -> WY | 4 -> WT | 5 -> WUW | 6 -> WZW | 7 -> WQEW | _ -> WUEW) in UpdSub (w, nn ())
                     | "SDV" -> let k = key () in SetDV (k, nn ())
                     | "SCE" -> let k = key () in SetCE (k, nn ())
                     | "MK" -> Mark (key ())
